@@ -21,7 +21,12 @@ import core
 PID = "C05"
 
 
-GRIDS = {"u": list(range(-6, 7)), "a": [-6, -4, -2, 0, 2, 4, 6], "b": [-6, -5, -1, 0, 1, 5, 6], "c": [-6, -3, -2, 0, 2, 3, 6]}
+GRIDS = {"u": list(range(-6, 7)), "a": [-6, -4, -2, 0, 2, 4, 6], "b": [-6, -5, -1, 0, 1, 5, 6], "c": [-6, -3, -2, 0, 2, 3, 6],
+         # grids of the same length that differ from "a" (and from each other) by a few parts in a million: different grids
+         "d": [-6, -4 * (1 + 4e-6), -2, 0, 2 * (1 + 4e-6), 4, 6], "e": [-6, -4, -2 * (1 - 4e-6), 0, 2, 4 * (1 - 4e-6), 6]}
+
+
+BUILD_ARGS = {"w": 1}       # the argument values given at construction by build_real
 
 
 def shared_f(t, w, a, b):
@@ -46,13 +51,13 @@ def gen_tree(rng, depth, tier):
             if style == "array0" or style == "array1":
                 c = c[:2]
             return {"k": "evo", "m": rnd_m(rng), "c": c, "style": style,
-                    "grid": "u" if style == "array0" else str(rng.choice(["u", "a", "b", "c"]))}
-        return {"k": "func", "a": rnd_m(rng), "b": rnd_m(rng), "style": str(rng.choice(["plain", "args", "shared", "shared", "kwonly", "dictargs"]))}
+                    "grid": "u" if style == "array0" else str(rng.choice(["u", "a", "b", "c", "d", "e"]))}
+        return {"k": "func", "a": rnd_m(rng), "b": rnd_m(rng), "style": str(rng.choice(["plain", "args", "shared", "shared", "kwonly", "dictargs", "defaulted", "defaulted"]))}
     if rng.random() < 0.12:
         # several terms on the same operator (merged by compress), sampled on different grids
         m = rnd_m(rng)
         terms = [{"k": "evo", "m": m, "c": [[int(a), int(b)] for a, b in rng.integers(-2, 3, size=(2, 2))],
-                  "style": "array1", "grid": str(rng.choice(["a", "b", "c", "a", "b", "u"]))} for _ in range(int(rng.integers(2, 4)))]
+                  "style": "array1", "grid": str(rng.choice(["a", "b", "c", "a", "d", "e", "d", "u"]))} for _ in range(int(rng.integers(2, 4)))]
         node = terms[0]
         for tt in terms[1:]:
             node = {"k": "add", "x": node, "y": tt}
@@ -125,15 +130,15 @@ def build_real(node):
         if st == "func":
             return qutip.QobjEvo([[q, lambda t, c=c: poly(c, t)]])
         if st == "func_args":
-            return qutip.QobjEvo([[q, lambda t, w, c=c: w * poly(c, t)]], args={"w": 1})
+            return qutip.QobjEvo([[q, lambda t, w, c=c: w * poly(c, t)]], args={"w": BUILD_ARGS["w"]})
         if st == "func_kwonly":
             def f_kw(t, *, w=0):            # keyword-only parameter whose default is not the value in force
                 return w * poly(c, t)
-            return qutip.QobjEvo([[q, f_kw]], args={"w": 1})
+            return qutip.QobjEvo([[q, f_kw]], args={"w": BUILD_ARGS["w"]})
         if st == "func_dict":
             def f_dict(t, args):
                 return args["w"] * poly(c, t)
-            return qutip.QobjEvo([[q, f_dict]], args={"w": 1})
+            return qutip.QobjEvo([[q, f_dict]], args={"w": BUILD_ARGS["w"]})
         if st == "str":
             expr = " + ".join(f"({a}+{b}j)*t**{k}" for k, (a, b) in enumerate(c))
             return qutip.QobjEvo([[q, expr]])
@@ -150,17 +155,22 @@ def build_real(node):
     if k == "func":
         a, b = qutip.Qobj(mat(node["a"])), qutip.Qobj(mat(node["b"]))
         if node["style"] == "args":
-            return qutip.QobjEvo(lambda t, w, a=a, b=b: a + (w * t) * b, args={"w": 1})
+            return qutip.QobjEvo(lambda t, w, a=a, b=b: a + (w * t) * b, args={"w": BUILD_ARGS["w"]})
         if node["style"] == "shared":
-            return qutip.QobjEvo(shared_f, args={"w": 1, "a": a, "b": b})
+            return qutip.QobjEvo(shared_f, args={"w": BUILD_ARGS["w"], "a": a, "b": b})
         if node["style"] == "kwonly":
             def op_kw(t, *, w=0):
                 return a + (w * t) * b
-            return qutip.QobjEvo(op_kw, args={"w": 1})
+            return qutip.QobjEvo(op_kw, args={"w": BUILD_ARGS["w"]})
         if node["style"] == "dictargs":
             def op_dict(t, args):
                 return a + (args["w"] * t) * b
-            return qutip.QobjEvo(op_dict, args={"w": 1})
+            return qutip.QobjEvo(op_dict, args={"w": BUILD_ARGS["w"]})
+        if node["style"] == "defaulted":
+            # a parameter with a default that is not given at construction (unless the reference object is being built)
+            def op_def(t, w, shift=0):
+                return a + (w * t + shift) * b
+            return qutip.QobjEvo(op_def, args={k_: v_ for k_, v_ in BUILD_ARGS.items() if k_ in ("w", "shift")})
         return qutip.QobjEvo(lambda t, a=a, b=b: a + t * b)
     if k in ("add", "sub", "mul"):
         x, y = build_real(node["x"]), build_real(node["y"])
@@ -205,7 +215,7 @@ def build_real(node):
         if how == "to_csr":
             return x.to("csr")
         if how == "args":
-            return qutip.QobjEvo(x, args={"w": 1})      # argument replacement with the value in force
+            return qutip.QobjEvo(x, args={"w": BUILD_ARGS["w"]})      # argument replacement with the value in force
         return x.linear_map(lambda q: q)
     raise KeyError(k)
 
@@ -281,6 +291,30 @@ def run_real(case):
                 (obj * 2)(float(t), w=4)
             except Exception as e:      # noqa
                 extra.append(("args-other-raises", f"evaluating with other arguments raises {type(e).__name__}: {e}"[:200]))
+            # other argument values, however they are given, give the object built with those values
+            new_args = {"w": 3, "shift": 2}
+            saved = dict(BUILD_ARGS)
+            try:
+                BUILD_ARGS.update(new_args)
+                refobj = build_real(case["tree"])
+            finally:
+                BUILD_ARGS.clear()
+                BUILD_ARGS.update(saved)
+            Vn = refobj(float(t)).full()
+
+            def _inplace_new():
+                y = obj.copy()
+                y.arguments(new_args)
+                return y(float(t))
+            for nm, fn in (("call-kw", lambda: obj(float(t), **new_args)), ("call-dict", lambda: obj(float(t), dict(new_args))),
+                           ("arguments()", _inplace_new), ("QobjEvo(obj, args=)", lambda: qutip.QobjEvo(obj, args=dict(new_args))(float(t)))):
+                try:
+                    got = fn().full()
+                except Exception as e:      # noqa
+                    extra.append(("new-args-raises-" + nm, f"evaluating with new arguments ({nm}) raises {type(e).__name__}: {e}"[:200]))
+                    continue
+                if np.abs(got - Vn).max() > 1e-9 * (1 + np.abs(Vn).max()):
+                    extra.append(("new-args-" + nm, f"at t={t}, new argument values w=3, shift=2 given by {nm} do not give the value of the object built with them (difference {np.abs(got - Vn).max():.2e})"))
             again = obj(float(t)).full()
             if np.abs(again - V).max() > 1e-9 * (1 + np.abs(V).max()):
                 extra.append(("args-leak", f"after evaluating with other arguments, Q({t}) itself changed by {np.abs(again - V).max():.2e}"))
